@@ -16,6 +16,14 @@ class Unknown(Exception):
     pass
 
 
+class BreakEx(Exception):
+    pass
+
+
+class ContinueEx(Exception):
+    pass
+
+
 class ReturnEx(Exception):
     def __init__(self, value):
         self.value = value
@@ -166,6 +174,8 @@ class Interp:
             if "expr" in e:
                 return self.ev(e["expr"], env, depth)
             return ()
+        if k == "Match" and e.get("src", "").startswith("ForLoopDesugar"):
+            return self.for_loop(e, env, depth)
         if k == "Match":
             v = self.ev(e["scrut"], env, depth)
             for arm in e["arms"]:
@@ -241,6 +251,16 @@ class Interp:
             return v
         if k == "Return":
             raise ReturnEx(self.ev(e["e"], env, depth) if "e" in e else ())
+        if k == "Break":
+            raise BreakEx()
+        if k == "Continue":
+            raise ContinueEx()
+        if k == "Index":
+            base = self.ev(e["e"], env, depth)
+            i = self.ev(e["i"], env, depth)
+            if isinstance(base, (list, tuple)) and isinstance(i, int) and 0 <= i < len(base):
+                return base[i]
+            raise Unknown("index %r[%r]" % (base, i))
         if k == "Const" or k == "Static":
             b = self.facts.bodies.get(e["path"])
             if b is not None and depth < self.max_depth:
@@ -255,6 +275,37 @@ class Interp:
         if k == "Zst":
             return Opaque("zst")
         raise Unknown("expression kind " + str(k))
+
+    def for_loop(self, e, env, depth):
+        """`for PAT in ITER { BODY }` over a concrete integer range or list (bounded; tables only)."""
+        import facts as _F
+        loops = [l for l in _F.for_loops(e) if l[3] is e]
+        if not loops or loops[0][2] is None:
+            raise Unknown("for-loop shape")
+        pat, it, body, _ = loops[0]
+        itv = self.ev(it, env, depth)
+        if isinstance(itv, Enum) and itv.adt in ("Range", "RangeInclusive"):
+            lo, hi = itv.fields.get("start"), itv.fields.get("end")
+            if not isinstance(lo, int) or not isinstance(hi, int):
+                raise Unknown("range bounds")
+            seq = list(range(lo, hi + (1 if itv.adt == "RangeInclusive" else 0)))
+        elif isinstance(itv, (list, tuple)):
+            seq = list(itv)
+        else:
+            raise Unknown("for over %r" % (itv,))
+        if len(seq) > 64:
+            raise Unknown("loop too long for a table")
+        for x in seq:
+            env2 = env
+            if not self.match_pat(pat, x, env2):
+                raise Unknown("loop pattern")
+            try:
+                self.ev(body, env2, depth)
+            except BreakEx:
+                break
+            except ContinueEx:
+                continue
+        return ()
 
     def binop(self, op, a, b):
         if isinstance(a, Opaque) or isinstance(b, Opaque):
@@ -309,6 +360,17 @@ class Interp:
             raise Unknown("? on %r" % (v,))
         if gen == "core::ops::try_trait::FromResidual::from_residual":
             return self.ev(args[0], env, depth)
+        if gen in ("core::slice::<impl [T]>::len", "alloc::vec::Vec::<T, A>::len"):
+            v = self.ev(args[0], env, depth)
+            if isinstance(v, (list, tuple)):
+                return len(v)
+            raise Unknown("len of %r" % (v,))
+        if gen == "core::ops::index::Index::index":
+            base = self.ev(args[0], env, depth)
+            i = self.ev(args[1], env, depth)
+            if isinstance(base, (list, tuple)) and isinstance(i, int) and 0 <= i < len(base):
+                return base[i]
+            raise Unknown("index")
         if gen in ("core::cmp::Ord::cmp", "core::cmp::PartialOrd::partial_cmp"):
             a, b = self.ev(args[0], env, depth), self.ev(args[1], env, depth)
             if isinstance(a, int) and isinstance(b, int):
